@@ -42,6 +42,14 @@ def instances(tier, seed):
                 params={"type": tname, "stream_len": sl}, symbolic=["every stream byte"], stubs=CS,
                 functions=[f"poulpy-core/src/layouts/{'compressed/glwe' if which == 2 else tname.lower()}.rs::<{tname} as ReaderFrom>::read_from"], timeout=1200, mem_gb=16,
                 core=sl in (4, hdr + 8, hdr + 40)))
+    BS = [("std::fmt::format", "crate::c18_brk::fmt_stub")]
+    for nk, lens in ((1, (0, 7, 8, 15, 16, 24, 100, 199, 200)), (2, (16, 200, 384))):
+        for sl in lens:
+            out.append(Instance(
+                crate="hk_binfhe", family="ser.binfhe.BlindRotationKey.read", name=f"c18_brk_k{nk}_len{sl}", call=f"crate::c18_brk::brk_read::<{nk}, {sl}>()", unwind=max(sl, 40) + 8,
+                params={"type": "BlindRotationKey<CGGI>", "elements": nk, "stream_len": sl}, symbolic=["every stream byte"], stubs=BS,
+                functions=["poulpy-bin-fhe/src/blind_rotation/layouts/key.rs::<BlindRotationKey as ReaderFrom>::read_from", "poulpy-core/src/layouts/ggsw.rs::read_from", "poulpy-core/src/dist.rs::Distribution::read_from"], timeout=1800, mem_gb=24,
+                core=(nk, sl) in ((1, 16), (2, 200))))
     for two in (False, True):
         out.append(Instance(
             crate="hk_hal", family="ser.vec_znx.reuse", name=f"c18_vec_znx_reuse_{'two_reads' if two else 'slack'}",
@@ -53,7 +61,7 @@ def instances(tier, seed):
 
 META = {
     "bounds": "receivers: VecZnx n=2,cols=1,size 1 of max 2 (32 B); ScalarZnx n=2,cols=1; MatZnx n=2,1x1x1,size 1; stream length enumerated (every field boundary +-1, payload boundaries), every stream byte symbolic",
-    "outside": "poulpy-core wrappers other than GLWE/LWE/GLWECompressed, poulpy-bin-fhe key readers, larger receivers",
+    "outside": "poulpy-core wrappers other than GLWE/LWE/GLWECompressed, poulpy-bin-fhe readers other than BlindRotationKey (1-2 elements, n_glwe=2, rank 1, one row), larger receivers",
     "assumptions": ["std::fmt::format replaced by an empty-string stub (error messages only)", "io::Result values are mem::forget-ed in the harness"],
     "stubs": ["std::fmt::format -> crate::c18::fmt_stub"],
 }
